@@ -55,3 +55,31 @@ theorem From0_inv {α : Type} (s0 : α) (edge : α → α → Prop) (s : α) (h 
   | init => exact Or.inl rfl
   | step hp he => exact Or.inr ⟨_, hp, he⟩
 #print axioms From0_inv
+-- M-PERM (C13): a function of a list that is invariant under exchanging two NEIGHBOURING elements at any position is invariant
+-- under every permutation of the list. (The SMT side proves the neighbour-exchange invariance of the spec functions -- PERM_LEMMAS;
+-- this is the "every permutation is a product of neighbour exchanges" step.)
+theorem M_PERM {α β : Type} (f : List α → β)
+    (hswap : ∀ (p : List α) (a b : α) (l : List α), f (p ++ a :: b :: l) = f (p ++ b :: a :: l)) :
+    ∀ {l l' : List α}, List.Perm l l' → f l = f l' := by
+  have key : ∀ {l l' : List α}, List.Perm l l' → ∀ p : List α, f (p ++ l) = f (p ++ l') := by
+    intro l l' h
+    induction h with
+    | nil => intro p; rfl
+    | cons x _ ih =>
+      intro p
+      have := ih (p ++ [x])
+      simpa [List.append_assoc] using this
+    | swap x y l => intro p; exact hswap p y x l
+    | trans _ _ ih1 ih2 => intro p; exact (ih1 p).trans (ih2 p)
+  intro l l' h
+  simpa using key h []
+#print axioms M_PERM
+
+-- the same for a PREDICATE on lists (position-free membership statements)
+theorem M_PERM_pred {α : Type} (P : List α → Prop)
+    (hswap : ∀ (p : List α) (a b : α) (l : List α), P (p ++ a :: b :: l) ↔ P (p ++ b :: a :: l)) :
+    ∀ {l l' : List α}, List.Perm l l' → (P l ↔ P l') := by
+  intro l l' h
+  have := M_PERM (β := Prop) P (fun p a b l => propext (hswap p a b l)) h
+  rw [this]
+#print axioms M_PERM_pred
